@@ -254,8 +254,88 @@ func counterEffects(cx *Ctx, fn *ssa.Function) []addEffect {
 		}
 		out = append(out, addEffect{fname(f), kind, in})
 	})
+	// helpers of the recorder (recordLoad(counter, d)): their effects count at the call site, with "param" mapped to what
+	// the site hands in; a helper must perform each of its effects exactly once on all of its paths
+	allInstrs(fn, func(in ssa.Instruction) {
+		g := calleeOf(in)
+		if g == nil || g.Pkg == nil || !strings.HasSuffix(g.Pkg.Pkg.Path(), "/"+statsPkg) || len(g.Blocks) == 0 || g == origin(fn) || counterHelperDepth > 2 {
+			return
+		}
+		counterHelperDepth++
+		sub := counterEffects(cx, g)
+		counterHelperDepth--
+		// the helper may be handed the address of the counter to bump: loads.Add(1) on a parameter
+		allInstrs(g, func(x ssa.Instruction) {
+			if !isStdMethod(x, "sync/atomic", "", "Add") {
+				return
+			}
+			rp, ok := recvValue(x).(*ssa.Parameter)
+			if !ok {
+				return
+			}
+			for i, q := range g.Params {
+				if q != rp || i >= len(callCommon(in).Args) {
+					continue
+				}
+				if fa, isFA := callCommon(in).Args[i].(*ssa.FieldAddr); isFA && ownerName(fa.X.Type()) == "Counter" {
+					kind := "other"
+					if a := callArgs(x); len(a) == 1 {
+						av := stripConv(a[0])
+						if c, isC := constInt(av); isC {
+							kind = fmt.Sprint(c)
+						} else if _, isP := av.(*ssa.Parameter); isP {
+							kind = "param"
+						}
+					}
+					sub = append(sub, addEffect{fname(fieldOf(fa)), kind, x})
+				}
+			}
+		})
+		for _, e := range sub {
+			kind := e.kind
+			// exactly once inside the helper
+			once := true
+			for _, ex := range CountOnPaths(g, Pt{g.Blocks[0], 0}, func(x ssa.Instruction) int {
+				if x == e.in {
+					return 1
+				}
+				return 0
+			}, nil) {
+				if _, isRet := ex.Exit.(*ssa.Return); isRet && ex.Count != 1 {
+					once = false
+				}
+			}
+			if !once {
+				kind = "conditionally in helper " + g.Name()
+			} else if kind == "param" {
+				// which parameter of the helper, and what does the site pass for it
+				kind = "other"
+				var arg ssa.Value
+				if a := callArgs(e.in); len(a) == 1 {
+					if p, ok := stripConv(a[0]).(*ssa.Parameter); ok {
+						for i, q := range g.Params {
+							if q == p && i < len(callCommon(in).Args) {
+								arg = callCommon(in).Args[i]
+							}
+						}
+					}
+				}
+				if arg != nil {
+					a := stripConv(arg)
+					if c, ok := constInt(a); ok {
+						kind = fmt.Sprint(c)
+					} else if p, ok := a.(*ssa.Parameter); ok && p.Parent() == fn {
+						kind = "param"
+					}
+				}
+			}
+			out = append(out, addEffect{e.field, kind, in})
+		}
+	})
 	return out
 }
+
+var counterHelperDepth int
 
 // fieldOwnerType: the struct type whose field the call's receiver is (c.hits.Add -> Counter).
 func fieldOwnerType(cc *ssa.CallCommon) types.Type {
@@ -334,6 +414,21 @@ func ruleC20Counter(cx *Ctx) {
 	nc := cx.P.Func(statsPkg, "", "NewCounter")
 	for _, fn := range cx.P.ModuleFuncs() {
 		if recorders[origin(fn)] {
+			continue
+		}
+		// a helper that is called by the Record methods only is part of them (its effects were counted at their call sites)
+		onlyFromRecorders, nCallers := true, 0
+		for _, g := range cx.P.ModuleFuncs() {
+			allInstrs(g, func(in ssa.Instruction) {
+				if c := calleeOf(in); c != nil && c == origin(fn) {
+					nCallers++
+					if !recorders[origin(g)] {
+						onlyFromRecorders = false
+					}
+				}
+			})
+		}
+		if onlyFromRecorders && nCallers > 0 {
 			continue
 		}
 		for _, e := range counterEffects(cx, fn) {
